@@ -186,7 +186,12 @@ func findInlineNode(file *ast.File, comment *ast.Comment, fset *token.FileSet) (
 	// Comment lies between declarations (or after the last one): it is inline only if it
 	// trails the previous declaration on the same line, e.g. `var x T // @ignore CODE1`
 	if idx >= len(file.Decls) || commentPos < file.Decls[idx].Pos() {
-		if idx > 0 && fset.PositionFor(file.Decls[idx-1].End(), false).Line == commentLine {
+		// Before the first declaration the code the comment can trail is the package clause
+		previousEnd := file.Name.End()
+		if idx > 0 {
+			previousEnd = file.Decls[idx-1].End()
+		}
+		if previousEnd.IsValid() && previousEnd <= commentPos && fset.PositionFor(previousEnd, false).Line == commentLine {
 			if fileContent := fset.File(commentPos); fileContent != nil {
 				return fileContent.LineStart(commentLine), comment.End(), true
 			}
